@@ -95,6 +95,7 @@ type modEntry struct {
 
 // FG generates the verification conditions of one function.
 type FG struct {
+	snapshotCells int // interior addresses stored to memory, modelled by snapshot cells
 	merges map[int]*mergeInfo
 	copyOut map[ssa.Value]copyOutInfo
 	g       *Gen
